@@ -7,6 +7,7 @@
   without RDATA.
 -/
 import DnsProofs.C08Plain
+import DnsProofs.C08ExactMsg
 namespace Dns.Instance
 open Dns Dns.MU Dns.Len Dns.C08M Dns.C02M
 
@@ -48,5 +49,46 @@ theorem len_ge_pack_decoded (b : Bytes) (m : MsgM) (hm : unpackMsg b = some m)
     · exact hn r h
     · exact he r h
   exact covered_of_kind r (hk r hr).1 (hk r hr).2 hnames
+
+end Dns.Instance
+
+namespace Dns.Instance
+open Dns Dns.MU Dns.Len Dns.C08M Dns.C02M Dns.C08X
+
+/-- the record types whose `len()` is exact on escape-free values: integer, address, name and character-string fields only,
+    nothing counted ahead of a variable-length field -/
+def exactKinds : List String :=
+  ["A", "AAAA", "AFSDB", "ANY", "AVC", "CNAME", "DNAME", "EUI48", "EUI64", "GID", "GPOS", "HINFO", "ISDN", "KX", "L32",
+   "L64", "LOC", "LP", "MB", "MD", "MF", "MG", "MINFO", "MR", "MX", "NAPTR", "NID", "NINFO", "NS", "NSAPPTR", "NXNAME",
+   "PTR", "PX", "RESINFO", "RP", "RT", "SOA", "SPF", "SRV", "TALINK", "TXT", "UID", "UINFO", "X25"]
+
+/-- **which types are exact** (re-checked against the regenerated tables on every run) -/
+theorem exact_kinds : Gen.unpackCodecs.all (fun p => exactKind p.1 == exactKinds.contains p.1) = true := by decide
+
+/-- non-vacuity: `example.org. MX 10 mail.example.org.` is a record `lenMsg_eq_packMsgC` speaks about -/
+example :
+    ExactRR ⟨[101,120,97,109,112,108,101,46,111,114,103,46], 15, 1, 60, 0, "MX",
+      some [.n 10, .t [109,97,105,108,46,101,120,97,109,112,108,101,46,111,114,103,46]]⟩ := by
+  have hname : PlainName [101,120,97,109,112,108,101,46,111,114,103,46] :=
+    ⟨[[101,120,97,109,112,108,101],[111,114,103]], by decide,
+      (by intro l hl; unfold C08.Plain; simp only [List.mem_cons, List.not_mem_nil, or_false] at hl
+          rcases hl with rfl | rfl <;> decide), by decide⟩
+  have hmx : PlainName [109,97,105,108,46,101,120,97,109,112,108,101,46,111,114,103,46] :=
+    ⟨[[109,97,105,108],[101,120,97,109,112,108,101],[111,114,103]], by decide,
+      (by intro l hl; unfold C08.Plain; simp only [List.mem_cons, List.not_mem_nil, or_false] at hl
+          rcases hl with rfl | rfl | rfl <;> decide), by decide⟩
+  refine ⟨⟨by decide, by decide, ⟨Or.inr (plainName_ok _ hname), ?_⟩⟩, by decide, hname,
+    [.n 10, .t [109,97,105,108,46,101,120,97,109,112,108,101,46,111,114,103,46]], [.uint 2, .early, .name], rfl, by decide, ?_, ?_⟩
+  · intro vals hv v hmem
+    simp only [Option.some.injEq] at hv
+    subst hv
+    simp only [List.mem_cons, List.not_mem_nil, or_false] at hmem
+    rcases hmem with rfl | rfl
+    · trivial
+    · exact Or.inr (plainName_ok _ hmx)
+  · exact ⟨trivial, hmx, trivial⟩
+  · intro v hv items
+    simp only [List.mem_cons, List.not_mem_nil, or_false] at hv
+    rcases hv with rfl | rfl <;> simp
 
 end Dns.Instance
